@@ -111,18 +111,18 @@ ADDENDA = {
  "C14": " R14g (necessary for `answers what the real write would answer`): the key a preview is looked up under is the request's key on every path. R14h: the v1 and v2 readers of the preview flag are siblings — the sets of values they read as a preview (extracted from their comparisons with constants) are equal and contain the documented boolean `true`. R11a (shared with C11): the reference reservation is released on every exit, previews included.",
  "C15": " R15f: every DefaultLocker field changed while queuing a request is changed again on the path that abandons a still-queued request. R15g: Remove writes every link and end field (read from the type shapes); RemoveFirst unlinks what it returns. R15h: RemoveValue's predicate is an equality; the releasing loops are left only when exhausted. R15i: FirstNode / Next return the end and the link the list's own walks use.",
  "C01": " Also decided (R01f), per enumerated path in the domain of affine forms over opaque symbols: the owners of Machine.Balances keep the books — withdrawAll/withdrawAlways debit exactly what they hand out, withdrawAll hands out 0 or balance+overdraft under a non-negativity guard, credit/repay add exactly the current part's amount to that part's own account, OP_SAVE only lowers a balance. R01g: the loop invariant `remaining + sum(parts) = requested` of Funding.Take/TakeMax (and of a shared helper they wrap) is re-established by every path through one iteration. R01h: every balance recorded by ResolveBalances for (account, asset) is Store.GetBalance of that same account and asset (or machine.Zero for world). R01i: MonetaryInt's arithmetic methods are the big.Int operations of the same name.",
- "C04": " R04c: every SQL text assembled in Go (constants, concatenation, Sprintf, phis) that names a partitioned table carries, in that table's own scope, a ledger predicate qualified by nothing or by the table/alias itself, or a sequence key. R04d (a necessary condition of the replay clause): every selection of `the latest move` (ORDER BY … LIMIT 1, DISTINCT ON … ORDER BY) in a referenced SQL function, an SQL text built in Go or a bun chain orders by the key under which the running-total column it feeds is maintained by the writer (seq for post_commit_volumes; effective_date, seq for post_commit_effective_volumes). The instant column such a selection is cut at agrees with that ordering (insertion_date with seq, effective_date with effective_date, seq). R04f (in-memory store): in the fold of postings into a balance the credit test is evaluated whenever the debit test held, and vice versa. R04g: a loop of the in-memory store folding amounts into a balance is left only when exhausted. R04h: the in-memory store selects records by equality of identifiers, from the filtered result. R04i: a slice is indexed from its end with its own length.",
- "C05": " R05h: taking a batch splits the FIFO — {batch = pending, rest = fresh} or {batch = pending[:k], rest = pending[k:]} with one k — and nothing writes into the pending buffer in place (handed-out batches alias it). R05i: the hand-off cannot refuse (every returning path of Batcher.Append has queued its object). R05j: one persister (Runner.runner is called at exactly one site, the worker loop). R05k: lastTXID advances only where the allocation switch is true. R05l: the constant allocation switch of an append matches its log builder (uses / ignores the id). R05m: every log handed off was recorded as the chain head. R05n: every batch taken by the runner is dispatched.",
+ "C04": " R04c: every SQL text assembled in Go (constants, concatenation, Sprintf, phis) that names a partitioned table carries, in that table's own scope, a ledger predicate qualified by nothing or by the table/alias itself, or a sequence key. R04d (a necessary condition of the replay clause): every selection of `the latest move` (ORDER BY … LIMIT 1, DISTINCT ON … ORDER BY) in a referenced SQL function, an SQL text built in Go or a bun chain orders by the key under which the running-total column it feeds is maintained by the writer (seq for post_commit_volumes; effective_date, seq for post_commit_effective_volumes). The instant column such a selection is cut at agrees with that ordering (insertion_date with seq, effective_date with effective_date, seq). R04f (in-memory store): in the fold of postings into a balance the credit test is evaluated whenever the debit test held, and vice versa. R04g: a loop of the in-memory store folding amounts into a balance is left only when exhausted. R04h: the in-memory store selects records by equality of identifiers, from the filtered result. R04i: a slice is indexed from its end with its own length. R04j: a Last* method of the in-memory store indexes from the end.",
+ "C05": " R05h: taking a batch splits the FIFO — {batch = pending, rest = fresh} or {batch = pending[:k], rest = pending[k:]} with one k — and nothing writes into the pending buffer in place (handed-out batches alias it). R05i: the hand-off cannot refuse (every returning path of Batcher.Append has queued its object). R05j: one persister (Runner.runner is called at exactly one site, the worker loop). R05k: lastTXID advances only where the allocation switch is true. R05l: the constant allocation switch of an append matches its log builder (uses / ignores the id). R05m: every log handed off was recorded as the chain head. R05n: every batch taken by the runner is dispatched. R05o/R05p: the log the chain is resumed from is the last one (own length, index from the end).",
  "C06": " R06g: when the completion channel carries the outcome of the persistence (chan error), no received outcome is discarded. R06h: the hand-off cannot refuse, so no request is rejected after the chain head and the transaction id were advanced for it. R06i: the job the batcher hands its runner returns the error of the persistence call (nil only behind its nil test): a failed batch is never acknowledged as persisted. R05h (shared): a batch never aliases the live buffer. R06j: the store's transaction wrapper hands the callback's error on. R06k: a write method never reports success once the execution failed.",
  "C07": " R07d: between the engine and the store the idempotency key is only ever copied (every store into a field of that name takes a parameter, a same-named field, a constant or a phi of those, never a computed value), so the key checked is the key persisted. R07e: the lookup of a key sees every committed log that carries it (query conditioned by key and ledger only; the in-memory store reads no other field). R07f: on the nil-error edge of the key lookup no write is executed. R07g: the key that is reserved and looked up is Parameters.IdempotencyKey itself on every path. R07h: Referencer.release gives back exactly the entry take reserved (same table, same key format, same arguments). R07i: execution contexts are built from the received Parameters. R07j: every Parameters built under internal/api carries the request's key. R07k: one documented header name across API versions. R07l: a release names what was taken.",
- "C08": " R08e: the address VisitExpr returns for push=false is used as the value only for types without a compound form, otherwise for the asset only. R08f: the text of a composite parse-tree node (antlr concatenates its tokens without white space) never identifies the node: no map key, lookup or equality between nodes in package compiler. R08g: the subtraction opcodes compute (value popped second) − (value popped first), the order in which the compiler pushed the operands. R08h: an arithmetic opcode is emitted only on paths where the static types of both operands were compared equal to the operand type of the opcode. R08i: number texts are parsed in base 10. R08j: a type check cannot be walked around (every successful return behind `type == constant`), also through typed-visit helpers. R08l: lexer and parser report to the collecting listener. R01f (shared with C01) on the VM's balance book-keeping. R08m: a literal's text loses its quotes only.",
+ "C08": " R08e: the address VisitExpr returns for push=false is used as the value only for types without a compound form, otherwise for the asset only. R08f: the text of a composite parse-tree node (antlr concatenates its tokens without white space) never identifies the node: no map key, lookup or equality between nodes in package compiler. R08g: the subtraction opcodes compute (value popped second) − (value popped first), the order in which the compiler pushed the operands. R08h: an arithmetic opcode is emitted only on paths where the static types of both operands were compared equal to the operand type of the opcode. R08i: number texts are parsed in base 10. R08j: a type check cannot be walked around (every successful return behind `type == constant`), also through typed-visit helpers. R08l: lexer and parser report to the collecting listener. R01f (shared with C01) on the VM's balance book-keeping. R08m: a literal's text loses its quotes only. R08n: the arithmetic and comparison methods of MonetaryInt are the big.Int operations (comparisons through Cmp, never a truncating conversion). R12h (shared with C12): a null number variable is refused.",
  "C09": " Text is read through string expressions (Sprintf = concatenation = strconv); generated names are provably unique; R09h de-duplication keys are injective; R09g no floating point meets an amount in the content-carrying packages; R09i each posting is decoded into a fresh value (no reuse of a decode target across iterations). R09k: an error answer ends the handler (no engine call, no second answer after it) in all handlers of internal/api. R09l: every TransactionData/RunScript built from a transaction request takes the request's Timestamp, Reference and Metadata by name. R08b (shared with C08): the compilation cache is keyed by a digest of the whole script.",
- "C10": " The guard may be taken through a helper; releasing it on a path whose take failed (ownership) is a violation. R10g: every reversed posting takes its four fields from one original posting. R10h: Referencer.release gives back exactly what take reserved. R10i: whole-element moves of Reverse go between mirror positions (affine, induction variables). R10k: the in-memory store finds the transaction to revert by identity. R10l: a release names what was taken. The structure rules of the posting-to-script translation (R09a/b/e/h) are read here too. R10m: only the request's own switch forces a revert.",
+ "C10": " The guard may be taken through a helper; releasing it on a path whose take failed (ownership) is a violation. R10g: every reversed posting takes its four fields from one original posting. R10h: Referencer.release gives back exactly what take reserved. R10i: whole-element moves of Reverse go between mirror positions (affine, induction variables). R10k: the in-memory store finds the transaction to revert by identity. R10l: a release names what was taken. The structure rules of the posting-to-script translation (R09a/b/e/h) are read here too. R10m: only the request's own switch forces a revert. R10n: the revert marker maps the marker key to the reverted id. R10o: the last transaction is read from the end.",
  "C11": " R11c: the transaction reference is only ever copied between the engine and the store (same rule as R07d). R11d: the lookup of a reference sees every committed transaction that carries it, reverted ones included. R11e: Referencer.release gives back exactly what take reserved (a release that clears more lets a concurrent duplicate through). R11f: execution continues after the reference look-up only where the error is the not-found error. R11g: every handler that creates a transaction tests each CreateTransaction error for the conflict code. R11h: a release names what was taken. R11i: the not-found test is errors.Is(err, ErrNotFound). R11j/R11k: the reference travels from the request to the generated script.",
  "C12": " R12f: shared amounts are never modified in place (mutating big.Int methods only on fresh receivers). R12g: no error produced inside the compiler is dropped while its value result is used. R12h: pointer-typed values built from client text are nil-checked before the first dereference. R12i: every math/big division and integer / or % of the machine packages has a divisor that is a non-zero constant, a Rat.Denom() or a value tested in a dominating branch. R12j: the account lock taken for an execution is released on every exit of the executor (the lock-span path rule of C02 read for this property: a lock left behind blocks later executions). R12k: only a compiled program is cached. R12l: a type check cannot be walked around. R12m: arithmetic opcodes only for compared operand types. R12n: lexer and parser report to the collecting listener.",
  "C13": " R13g: exact amounts — no floating-point value meeting an amount type, no big.Float, no float parser in the content-carrying packages. R13h: the auxiliary struct a hand-written UnmarshalJSON decodes into declares every json key encoding/json writes for the type (case-insensitive, embedded promotion and shadowing as encoding/json computes them). Also under R13h: every field encoding/json writes for such a type is stored into the receiver by its UnmarshalJSON, and integers parsed inside these decoders are parsed 64 bits wide. R13j: the TargetType constant of a metadata log payload is the constant of the case it is built in. R13k: every log handed off was recorded as the chain head; R07b (shared): the key is on the log before it is hashed.",
  "C16": " R16d: the values passed to each monitor method are the ones persisted (payload of the written log / the parameters also stored in it) and the ledger monitor publishes on the topic, type and ledger of that event. R16f: every method of the publishing monitor hands a message to the publisher on every returning path. R06a/b (shared with C06): no entry point returns (and publishes) before the persistence signal of the log it handed off.",
- "C17": " R17d: the JSON kinds the query builders can write under their operator (nil slice/map/pointer = null) are all cases of the decoder's type switch. R17e/R17f: structural tables of the column and offset paginators (which comparison and order each direction uses, which row seeds next/previous, page-size+1 probe, trimming) agree between the branch that writes a cursor and the branch that reads it; the arithmetic itself is not decided. R17g: a loop that walks a listing page by page decodes the query of the following fetch from Cursor.Next. R17h: MapCursor carries every field of the page position. R17i: HasMore is `next != nil` of the pointer encoded into Next. R17j: the decoders of cursor contents store every decoded field into the receiver.",
+ "C17": " R17d: the JSON kinds the query builders can write under their operator (nil slice/map/pointer = null) are all cases of the decoder's type switch. R17e/R17f: structural tables of the column and offset paginators (which comparison and order each direction uses, which row seeds next/previous, page-size+1 probe, trimming) agree between the branch that writes a cursor and the branch that reads it; the arithmetic itself is not decided. R17g: a loop that walks a listing page by page decodes the query of the following fetch from Cursor.Next. R17h: MapCursor carries every field of the page position. R17i: HasMore is `next != nil` of the pointer encoded into Next. R17j: the decoders of cursor contents store every decoded field into the receiver. R17k: api.FetchAllPaginated keeps every page it decoded.",
  "C18": " R18f: each bulk element is decoded into a fresh value. R18g: no argument of an engine call made in the bulk loop carries a value from an earlier iteration. R18h: an error answer ends the bulk handler (a body that failed to decode is never processed). R18i: no boolean query reader reads a negative spelling as true. R18j: the documented keys of a bulk element are json keys of v2.Element. R18k: results are appended at the end of the list. R18l: continueOnFailure is the parameter's value, not its presence.",
  "C19": " R19d: no function of the repository stores into http.Request.Method or chi.Context.RouteMethod (constant safe verbs excepted) or uses a third-party function that does. R19e: the switch reaches the router — every command-line flag named like the setting that fills api.Config.ReadOnly is declared on a flag set bound to the configuration registry. R19b distinguishes chi's Use (installs on the router) from With (returns a new router): only Use installs the gate; a With result gates only what is registered on it.",
  "C20": " R20d: no string that may hold client text is converted to a type bun renders verbatim or as an identifier (schema.Safe/Name/Ident/QueryWithArgs). R20e: the text of a rendered query (SelectQuery.String()) is never used as a format that is given arguments. R20f: client text fills only Sprintf verbs that stand between single quotes in the fragment builders of the filters.",
